@@ -212,7 +212,7 @@ def size_boundary_cases(rng, spec, idx0):
             ls = ["tcp", "gnet", "tls", "quic", "http-post", "fasthttp-post", "https-post"]    # beyond the limit: EVERY listener kind
         if with_opt == 2:
             # UDP: a client advertising 65535 octets; the largest datagram payload the socket can send is 65507
-            ls, with_opt = ["udp", "udp"], 1
+            ls, with_opt = ["udp", "udpds"], 1       # udpds: dual-stack listener, the IPv4 client is seen v4-mapped
         for l in ls:
             idx += 1
             labels = [b"sz%d" % idx, rng.choice(VOCAB)]
@@ -285,7 +285,7 @@ def handle_gen(rng, tier):
             q, name, qtype, qclass = gen_query(rng, cfg, idx)
             l = rng.choice(["udp", "udp", "tcp", "gnet", "http-get", "http-post", "fasthttp-get", "fasthttp-post"])
             if tls_on and rng.random() < 0.6:
-                l = rng.choice(["tls", "https-get", "https-post", "quic", "quic", "udpmr", "udpmr",
+                l = rng.choice(["tls", "https-get", "https-post", "quic", "quic", "udpmr", "udpmr", "udpds", "udpds",
                                 "tcpunix", "gnetunix", "httpunix-get", "httpunix-post", "fasthttpunix-get", "fasthttpunix-post"])
             client = "-"
             if l.startswith("http") or l.startswith("fasthttp"):
